@@ -294,6 +294,18 @@ def s_conv_subscript(ctx, shape=(None,)):
     if not nodes or (not slices and not gathers):
         idn = [x for x in log.nodes if x["op"] == "Identity"]
         ctx.check("C11.converter.subscript.no_index_is_identity", all(full) and len(idn) == 1, CL)
+    # NumPy: an integer next to a tensor-valued index is an advanced index too; when the advanced indices are NOT adjacent
+    # (a slice stands between them) the dimensions of the tensor index come FIRST in the result.  Slice/Squeeze/Gather
+    # leave them in place, i.e. after every sliced axis that precedes the tensor component.
+    tens = [a for a in range(n) if kinds[a] == "tensor"]
+    if len(tens) == 1 and any(k in ("const", "dyn") for k in kinds):
+        a = tens[0]
+        adv = [b for b in range(n) if kinds[b] in ("const", "dyn", "tensor")]
+        if any(kinds[b] == "slice" for b in range(min(adv), max(adv) + 1)):
+            slice_before = any(kinds[b] == "slice" for b in range(a))
+            r = RankOf(comps[a].ref)
+            ctx.check("C11.converter.subscript.tensor_index_dims_lead_the_result_when_an_int_index_is_separated_from_it_by_a_slice",
+                      z3.Implies(r >= 1, z3.BoolVal(not slice_before)), CL + " — NumPy puts the dimensions of non-adjacent advanced indices first")
 
 
 F = lambda *q: [(REL, x) for x in q]
@@ -307,7 +319,7 @@ def _mk(shape):
 
 _SHAPES = [(0,), (1,), (2,)] + [(a, b) for a in range(3) for b in range(3) if (a, b) != (0, 0)] + \
     [((0, x, y), 0) for x in range(2) for y in range(2)] + [(1, 1, 2), (0, 1, 2), (2, (0, 1, 0), 1), (2, 1, (0, 0, 1)),
-                                                         (1, 2, (0, 1, 0)), ((0, 1, 0), 2, 1), (2, 1, 1), (1, (0, 0, 1), 1)]
+                                                         (1, 2, (0, 1, 0)), ((0, 1, 0), 2, 1), (2, 1, 1), (1, (0, 0, 1), 1), (1, (0, 0, 0), 2), (1, (0, 1, 0), 2)]
 _KN = {0: "slice", 1: "int", 2: "tensor", (0, 0, 0): "slice(None:None)", (0, 0, 1): "slice(None:c)",
        (0, 1, 0): "slice(c:None)", (0, 1, 1): "slice(c:c)"}
 
